@@ -827,7 +827,9 @@ def k_expiry_h2(flavour: str) -> list[Result]:
 
         def cex(m: z3.ModelRef, p: I.Path) -> dict[str, typing.Any]:
             ev = lambda x: str(m.eval(x, model_completion=True))  # noqa: E731
-            return {"proto": "h2", "t0": ev(T0), "t1": ev(T1), "expiry": None if ev(En) == "True" else ev(E)}
+            return {"proto": "h2", "t0": ev(T0), "t1": ev(T1), "expiry": None if ev(En) == "True" else ev(E),
+                    "old_deadline": None if ev(Xn) == "True" else ev(X), "terminated": ev(TERM) == "True", "used": ev(USED) == "True",
+                    "state": int(ev(STATE)), "n_streams": n_streams}
 
         out.append(_discharge(it, name, f"closing one of {n_streams} stream(s): its permit is released exactly once and its queue is gone; the last stream turns an "
                               "ACTIVE connection IDLE and arms the deadline t0 + expiry (real-valued), a terminated connection is closed, "
@@ -1040,7 +1042,7 @@ def replay_interim(flavour: str, args: dict[str, typing.Any]) -> bool:
 
 
 def _replay_expiry_h2(flavour: str, args: dict[str, typing.Any]) -> bool:
-    """Real HTTP2Connection object, one registered stream, ACTIVE: close it at t0 and ask at t1."""
+    """Real HTTP2Connection object with the state of the counterexample: close stream 1 at t0 and ask at t1."""
     import importlib
     from fractions import Fraction
 
@@ -1049,8 +1051,13 @@ def _replay_expiry_h2(flavour: str, args: dict[str, typing.Any]) -> bool:
     mod = importlib.import_module(f"httpcore.{'_async' if flavour == 'async' else '_sync'}.http2")
     cls = getattr(mod, "AsyncHTTP2Connection" if flavour == "async" else "HTTP2Connection")
     F = lambda v: None if v is None else Fraction(str(v).replace("?", ""))  # noqa: E731
-    t0, t1, e = F(args["t0"]), F(args["t1"]), F(args["expiry"])
+    t0, t1, e, x = F(args["t0"]), F(args["t1"]), F(args["expiry"]), F(args.get("old_deadline"))
+    n = int(args.get("n_streams", 1))
+    S = mod.HTTPConnectionState
+    state0 = {1: S.ACTIVE, 2: S.IDLE, 3: S.CLOSED}[int(args.get("state", 1))]
+    term, used = bool(args.get("terminated", False)), bool(args.get("used", False))
     released: list[int] = []
+    closed: list[int] = []
 
     class Sem:
         def release(self) -> None:
@@ -1060,15 +1067,28 @@ def _replay_expiry_h2(flavour: str, args: dict[str, typing.Any]) -> bool:
         async def release(self) -> None:
             released.append(1)
 
+    class H2:
+        def close_connection(self) -> None:
+            pass
+
+    class Stream:
+        def close(self) -> None:
+            closed.append(1)
+
+        async def aclose(self) -> None:
+            closed.append(1)
+
     conn = cls.__new__(cls)
     conn._state_lock = (mod.AsyncLock if flavour == "async" else mod.Lock)()
     conn._max_streams_semaphore = ASem() if flavour == "async" else Sem()
-    conn._events = {1: []}
-    conn._state = mod.HTTPConnectionState.ACTIVE
-    conn._connection_terminated = False
-    conn._used_all_stream_ids = False
+    conn._events = {sid: [] for sid in (1, 3)[:n]}
+    conn._state = state0
+    conn._connection_terminated = term
+    conn._used_all_stream_ids = used
     conn._keepalive_expiry = e
-    conn._expire_at = None
+    conn._expire_at = x
+    conn._h2_state = H2()
+    conn._network_stream = Stream()
     clock = [t0]
 
     class T:
@@ -1085,13 +1105,23 @@ def _replay_expiry_h2(flavour: str, args: dict[str, typing.Any]) -> bool:
         else:
             conn._response_closed(1)
         clock[0] = t1
-        got = conn.has_expired()
+        got = bool(conn.has_expired())
     except Exception:
         return True
     finally:
         mod.time = saved
-    want = e is not None and t1 > t0 + e
-    return not (conn._state == mod.HTTPConnectionState.IDLE and bool(got) == bool(want) and len(released) == 1 and 1 not in conn._events)
+    if len(released) != 1 or 1 in conn._events:
+        return True
+    old_rule = x is not None and t1 > x
+    if n > 1:
+        return not (conn._state == state0 and got == old_rule and not closed)
+    if term:
+        return not (conn._state == S.CLOSED and closed)
+    if state0 == S.ACTIVE:
+        want_state = S.CLOSED if used else S.IDLE
+        want = (e is not None and t1 > t0 + e) or (e is None and old_rule)
+        return not (conn._state == want_state and got == want)
+    return not (conn._state == state0 and got == old_rule)
 
 
 def validate(seed: int = 0) -> tuple[int, list[str]]:
